@@ -747,6 +747,36 @@ def _expn(ex, st, args, kwargs, node):
     return ex.map1(lambda t: ex.c.expn(n, t), x, st, kind='real')
 
 
+@model('numpy.gradient')
+def _gradient(ex, st, args, kwargs, node):
+    """assumed: np.gradient of a 1-D array with unit spacing (n >= 2, a call-site obligation): one-sided differences at the ends,
+    central differences (a[i+1]-a[i-1])/2 inside"""
+    a = arr(ex, st, args[0])
+    if a is None or a.ndim != 1 or len(args) > 1 or kwargs:
+        raise Unsupported('np.gradient form')
+    n = a.shape[0]
+    ex.oblige('safe.gradient_two_points', st, to_int(n) >= 2, node)
+    last = _minus1(n)
+
+    def el(ix, a=a):
+        i = ix[0]
+        ci = conc_int(i)
+        first = to_real(a.elem((1,))) - to_real(a.elem((0,)))
+        end = to_real(a.elem((last,))) - to_real(a.elem((_minus1(last),)))
+        if ci == 0:
+            return first
+        mid = (to_real(a.elem((_plus1(i),))) - to_real(a.elem((_minus1(i),)))) / 2
+        cl = conc_int(last)
+        if ci is not None and cl is not None:
+            return end if ci == cl else mid
+        return z3.If(to_int(i) == 0, first, z3.If(to_int(i) == to_int(last), end, mid))
+    return st.alloc(ex.c, Arr((n,), el, 'real'))
+
+
+def _plus1(n):
+    return n + 1 if not is_sym(n) else to_int(n) + 1
+
+
 @model('numpy.diff')
 def _diff(ex, st, args, kwargs, node):
     """assumed: diff(a)[i] = a[i+1] - a[i] (1-D), length max(n-1, 0)"""
